@@ -13,6 +13,8 @@ pub struct World {
     pub router: QueryRouter,
     pub trace: Vec<String>,
     pub tracing: bool,
+    /// CHECKPOINT / ROLLBACK TO / CHECKPOINTS go through `execute_parsed_async` on this runtime
+    pub rt: Option<tokio::runtime::Runtime>,
 }
 
 impl World {
@@ -28,7 +30,14 @@ impl World {
         if max_cp % 2 == 1 {
             router.init_cache();
         }
-        Ok(Self { router, trace: Vec::new(), tracing: std::env::var("NV_C08_TRACE").is_ok() })
+        Ok(Self { router, trace: Vec::new(), tracing: std::env::var("NV_C08_TRACE").is_ok(), rt: None })
+    }
+
+    /// `new`, with the checkpoint statements sent through the async entry point.
+    pub fn new_async(max_cp: usize) -> Result<Self, Fail> {
+        let mut w = Self::new(max_cp)?;
+        w.rt = Some(tokio::runtime::Builder::new_current_thread().enable_all().build().map_err(|e| Fail::new("setup-failed", format!("tokio: {e}")))?);
+        Ok(w)
     }
 
     /// Same router with auto-checkpoints on (taken before destructive statements), still without
@@ -38,12 +47,20 @@ impl World {
         router.init_blob().map_err(|e| Fail::new("setup-failed", format!("init_blob: {e}")))?;
         let cfg = CheckpointConfig::default().with_max_checkpoints(max_cp).with_auto_checkpoint(true).with_interactive_confirm(false);
         router.init_checkpoint_with_config(cfg).map_err(|e| Fail::new("setup-failed", format!("init_checkpoint: {e}")))?;
-        Ok(Self { router, trace: Vec::new(), tracing: std::env::var("NV_C08_TRACE").is_ok() })
+        Ok(Self { router, trace: Vec::new(), tracing: std::env::var("NV_C08_TRACE").is_ok(), rt: None })
     }
 
     /// The path the shell and the server use.
     pub fn exec(&mut self, text: &str) -> Result<QueryResult, RouterError> {
-        let r = self.router.execute_parsed(text);
+        // Only the checkpoint statements have async implementations of their own; every other
+        // statement is handed by the async entry point to the synchronous executor, which for
+        // some of them (ENTITY, FIND …) blocks on the router's own runtime and cannot be called
+        // from inside one — those go through the synchronous entry point here as well.
+        let head = text.trim_start().get(..8).map(str::to_ascii_uppercase).unwrap_or_default();
+        let r = match &self.rt {
+            Some(rt) if head.starts_with("CHECKPOI") || head.starts_with("ROLLBACK") => rt.block_on(self.router.execute_parsed_async(text)),
+            _ => self.router.execute_parsed(text),
+        };
         if self.tracing {
             let s = match &r {
                 Ok(v) => format!("{v:?}"),
